@@ -80,7 +80,8 @@ def run_variant(v):
         if not ok:
             return dict(v, verdict='skipped', why=why)
         env = dict(os.environ, VERIF_REPO=base, VERIF_NO_EVIDENCE='1', PYTHONDONTWRITEBYTECODE='1')
-        r = subprocess.run([sys.executable, os.path.join(VERIF, 'check'), v['prop'], '--tier', 'quick'], env=env,
+        env['VERIF_NO_SELFTEST'] = '1'
+        r = subprocess.run([sys.executable, os.path.join(VERIF, 'check'), v['prop'], '--tier', v.get('tier', 'quick')], env=env,
                            capture_output=True, text=True, timeout=300)
         out = r.stdout
         if v['kind'] == 'firing':
